@@ -131,6 +131,12 @@ func c14tcpClient(rep *vh.Report, seed uint64, idx int) {
 	addr := ln.Addr().String()
 	node := &gomavlib.Node{Endpoints: []gomavlib.EndpointConf{gomavlib.EndpointTCPClient{Address: addr}}, Dialect: testDialect, OutVersion: gomavlib.V2, OutSystemID: 31,
 		HeartbeatDisable: true, ReadTimeout: 150 * time.Millisecond, WriteTimeout: 150 * time.Millisecond, IdleTimeout: 3 * time.Second}
+	if idx%3 == 2 {
+		// a connection-attempt timeout that is SHORTER than the reconnect delay (loopback connections are made, or refused, in
+		// microseconds): the delay between attempts is the reconnect delay all the same, and the endpoint keeps trying
+		node.ReadTimeout = c14reconnect / 2
+		rep.Count("tcp_client_runs_with_connect_timeout_below_reconnect_delay", 1)
+	}
 	if err := node.Initialize(); err != nil {
 		rep.HarnessError(err.Error())
 		return
@@ -586,6 +592,12 @@ func c14idle(rep *vh.Report, seed uint64, idx int, kind string) {
 			ep = gomavlib.EndpointUDPServer{Address: fmt.Sprintf("127.0.0.1:%d", port)}
 		}
 		node = &gomavlib.Node{Endpoints: []gomavlib.EndpointConf{ep}, Dialect: testDialect, OutVersion: gomavlib.V2, OutSystemID: 35, HeartbeatDisable: true, IdleTimeout: T}
+		if (kind == "tcp-server") == (idx%2 == 0) {
+			// the node's own heartbeats are on, at their default period of 5 s (much longer than the idle timeout): the idle
+			// timeout is about what the node RECEIVES and stays what was configured
+			node.HeartbeatDisable = false
+			rep.Count("idle_runs_with_default_heartbeats", 1)
+		}
 		if err := node.Initialize(); err != nil {
 			rep.Inconclusive("C14 idle: " + err.Error())
 			return
